@@ -1072,13 +1072,15 @@ def run(prop, tier, seed):
         names = {n for n, _, _ in refchk.split_chunks(data)}
         have = {"unis": 100 if b"UNIS" in names else (130 if b"UNIx" in names else 0), "wav": b"WAV " in names}
         big = len(data) > 500000
-        for j in range(per_base if not (big and tier == "quick") else 2):
+        if prop == "C09" and big:
+            continue
+        for j in range((per_base if not (big and tier == "quick") else 2) if prop != "C09" else per_base // 4):
             Author._existing = {}
             author = Author(rng, spec, classes, data)
             mode = "single" if j % 3 != 2 else "multi"
             hist = gen_history(author, rng, mode, have)
             scenarios.append({"tag": tag, "base": data, "base_out": base_out, "history": hist, "mode": mode, "kind": "normal"})
-        if prop in ("C04", "C07", "C11", "C10"):
+        if prop in ("C04", "C07", "C11", "C10", "C09"):
             Author._existing = {}
             author = Author(rng, spec, classes, data)
             for what, hist, mode, may_raise in special_histories(author, rng, have):
@@ -1117,6 +1119,12 @@ def run(prop, tier, seed):
         if prop == "C04" and not sc["kind"].startswith("degenerate"):
             check_c04(sc, res, spec, rf, widths, out, base_info)
             reload_equal(sc, res, authored, out, base_info)
+        if prop == "C09" and not sc["kind"].startswith("degenerate"):
+            # the references of the saved map: every new object resolves to a slot of its own holding its values
+            # (what a shared weapon record does to unit settings is C04's business, not an allocation matter)
+            n0 = len(out.violations)
+            check_c04(sc, res, spec, rf, widths, out, base_info)
+            out.violations[n0:] = [v for v in out.violations[n0:] if v.get("key") is None]
         if prop == "C10" and not sc["kind"].startswith("degenerate"):
             # whatever edits are made elsewhere: unmodelled sections of the unedited save sit at the same index, identical
             from rich_h import passthrough_problems
@@ -1127,7 +1135,7 @@ def run(prop, tier, seed):
             check_c07(sc, sc["base_out"], res, spec, out, base_info)
         if prop == "C11":
             before = set(refchk.struct_valid(sc["base_out"], spec))
-            for p in [p for p in refchk.struct_valid(res, spec) if p not in before][:3]:
+            for p in [p for p in refchk.struct_valid(res, spec) if p not in before or p.startswith("UPUS marks")][:3]:
                 out.violations.append(dict(base_info, oracle="every emitted CHK is structurally valid", problem=p, key=None))
     return out
 
